@@ -222,12 +222,16 @@ struct TlsServer {
 }
 
 fn start_tls(log: &EvLog, mode: HandlerTaskMode) -> Result<TlsServer, String> {
+    start_tls_with(log, mode, 4096)
+}
+
+fn start_tls_with(log: &EvLog, mode: HandlerTaskMode, body_max: usize) -> Result<TlsServer, String> {
     let ck = rcgen::generate_simple_self_signed(vec!["localhost".to_string()]).map_err(|e| e.to_string())?;
     let tls = ConfigTls::AsBytes { certs: ck.cert.pem().into_bytes(), key: ck.key_pair.serialize_pem().into_bytes() };
     let rt = tokio::runtime::Builder::new_multi_thread().worker_threads(4).enable_all().build().map_err(|e| e.to_string())?;
     let config = ConfigDropshot {
         bind_address: "127.0.0.1:0".parse().unwrap(),
-        default_request_body_max_bytes: 4096,
+        default_request_body_max_bytes: body_max,
         default_handler_task_mode: mode,
         log_headers: vec![],
     };
@@ -443,6 +447,146 @@ fn run_c09(seed: u64, rounds: usize) -> Report {
         }
     }
     drop(srv);
+    rep
+}
+
+/// C09 / C16-style multiplexing over the path real clients take to HTTP/2: TLS with
+/// ALPN (dropshot's acceptor offers h2 first).
+fn run_c09_h2(seed: u64, rounds: usize) -> Report {
+    let mut rep = Report::new(
+        "C09",
+        "E2-tls-h2-echo",
+        "an HTTPS server (both task modes) reached by a tokio-rustls client offering ALPN h2 (the negotiated protocol must be h2) and          the h2 crate's client on top: per round 1-12 concurrent streams on one connection carry typed echo requests from the c09          generators (path strings/numbers, wildcard, query, pagination query, JSON / urlencoded / raw / streaming bodies cut into 1-4 DATA          frames); each echo (typed arguments, method, URI, uid, peer address = the TLS connection's own socket) must equal what was sent;          class = (kind, value classes, #streams, #frames, mode)",
+    );
+    let mut ccfg = (*client_config()).clone();
+    ccfg.alpn_protocols = vec![b"h2".to_vec(), b"http/1.1".to_vec()];
+    let connector = tokio_rustls::TlsConnector::from(Arc::new(ccfg));
+    let kinds: Vec<&'static str> = vec!["paths", "pathn", "pathw", "pathsw", "query", "pagq", "form", "json", "raw", "stream"];
+    for mode in [HandlerTaskMode::Detached, HandlerTaskMode::CancelOnDisconnect] {
+        let log = EvLog::new();
+        let srv = match start_tls_with(&log, mode, 1 << 20) {
+            Ok(s) => s,
+            Err(e) => {
+                rep.inconclusive(&format!("tls server start: {e}"));
+                continue;
+            }
+        };
+        let addr = srv.addr;
+        let mode_tag = if matches!(mode, HandlerTaskMode::Detached) { "det" } else { "cod" };
+        let rt = match tokio::runtime::Builder::new_multi_thread().worker_threads(2).enable_all().build() {
+            Ok(r) => r,
+            Err(e) => {
+                rep.inconclusive(&format!("client runtime: {e}"));
+                continue;
+            }
+        };
+        let reports: Vec<Report> = rt.block_on(async {
+            let mut out = vec![];
+            for r in 0..rounds {
+                let mut rep = Report::new("C09", "E2-tls-h2-echo", "");
+                let mut rng = Rng::derive(seed, "c09-tls-h2", if mode_tag == "det" { 0 } else { 1 }, r as u64);
+                let conn = async {
+                    let tcp = tokio::time::timeout(Duration::from_secs(10), tokio::net::TcpStream::connect(addr)).await.map_err(|_| "connect timeout".to_string())?.map_err(|e| e.to_string())?;
+                    let local = tcp.local_addr().map_err(|e| e.to_string())?;
+                    let name = rustls::pki_types::ServerName::try_from("localhost").unwrap();
+                    let tls = tokio::time::timeout(Duration::from_secs(10), connector.connect(name, tcp)).await.map_err(|_| "tls handshake timeout".to_string())?.map_err(|e| format!("tls: {e}"))?;
+                    let alpn = tls.get_ref().1.alpn_protocol().map(|p| p.to_vec());
+                    let mut hb = h2::client::Builder::new();
+                    hb.initial_window_size(8 << 20).initial_connection_window_size(64 << 20);
+                    let (client, conn) = tokio::time::timeout(Duration::from_secs(10), hb.handshake::<_, bytes::Bytes>(tls)).await.map_err(|_| "h2 handshake timeout".to_string())?.map_err(|e| format!("h2: {e}"))?;
+                    Ok::<_, String>((client, conn, local, alpn))
+                };
+                let (client, conn, local, alpn) = match conn.await {
+                    Ok(x) => x,
+                    Err(e) => {
+                        rep.inconclusive(&format!("tls+h2 connect: {}", e.chars().take(50).collect::<String>()));
+                        out.push(rep);
+                        continue;
+                    }
+                };
+                if alpn.as_deref() != Some(b"h2") {
+                    rep.violate("C09:tls:alpn-h2-offered-but-not-negotiated", json!({"negotiated": alpn.map(|a| String::from_utf8_lossy(&a).to_string())}));
+                }
+                let task = tokio::spawn(async move {
+                    let _ = conn.await;
+                });
+                let nstreams = 1 + rng.usize(12);
+                let mut jobs = vec![];
+                for k in 0..nstreams {
+                    let mut crng = Rng::derive(seed, "c09-tls-h2-case", r as u64, k as u64);
+                    let case = vmon::c09::gen_case(&mut crng, &kinds);
+                    let uri = format!("https://localhost:{}{}", addr.port(), case.target);
+                    let mut b = http::Request::builder().method(case.req.method.as_str()).uri(&uri);
+                    for (n, v) in &case.req.headers {
+                        b = b.header(n.as_str(), v.as_slice());
+                    }
+                    let Ok(req) = b.body(()) else {
+                        rep.inconclusive("h2 client cannot express this request");
+                        continue;
+                    };
+                    let nframes = 1 + crng.usize(4);
+                    let client = client.clone();
+                    jobs.push(tokio::spawn(async move {
+                        let r = tokio::time::timeout(Duration::from_secs(30), async {
+                            let mut c = client.ready().await.map_err(|e| format!("ready: {e}"))?;
+                            let body = case.req.body.clone();
+                            let (resp, mut send) = c.send_request(req, body.is_empty()).map_err(|e| format!("send_request: {e}"))?;
+                            if !body.is_empty() {
+                                let step = body.len().div_ceil(nframes).max(1);
+                                let mut off = 0;
+                                while off < body.len() {
+                                    let end = (off + step).min(body.len());
+                                    send.send_data(bytes::Bytes::copy_from_slice(&body[off..end]), end == body.len()).map_err(|e| format!("send_data: {e}"))?;
+                                    off = end;
+                                }
+                            }
+                            let resp = resp.await.map_err(|e| format!("response: {e}"))?;
+                            let status = resp.status().as_u16();
+                            let mut rb = resp.into_body();
+                            let mut got = vec![];
+                            while let Some(chunk) = rb.data().await {
+                                let chunk = chunk.map_err(|e| format!("body: {e}"))?;
+                                let _ = rb.flow_control().release_capacity(chunk.len());
+                                got.extend_from_slice(&chunk);
+                            }
+                            Ok::<_, String>((status, got))
+                        })
+                        .await
+                        .unwrap_or_else(|_| Err("watchdog".into()));
+                        (case, nframes, r)
+                    }));
+                }
+                let n_jobs = jobs.len();
+                for j in jobs {
+                    let Ok((case, nframes, res)) = j.await else {
+                        rep.inconclusive("client task failed");
+                        continue;
+                    };
+                    match res {
+                        Err(e) => rep.inconclusive(&format!("h2-over-tls request: {}", e.chars().take(40).collect::<String>())),
+                        Ok((status, body)) => {
+                            rep.eval(format!("{}|tls-h2|streams{}|frames{nframes}|{mode_tag}", case.class, n_jobs.min(8)));
+                            rep.count("tls_h2_responses", 1);
+                            let fake = vmon::client::Resp { version: "HTTP/2".into(), status, reason: String::new(), headers: vec![], body, framing: "h2", chunks: 0 };
+                            if let Some((sig, detail)) = vmon::c09::check_echo_ex(&case, &fake, Some(local), true) {
+                                rep.violate(sig, json!({"seed": seed, "transport": "h2 over TLS (ALPN)", "round": r, "mode": mode_tag,
+                                    "kind": case.kind, "target": case.target, "detail": detail}));
+                            }
+                        }
+                    }
+                }
+                drop(client);
+                task.abort();
+                out.push(rep);
+            }
+            out
+        });
+        drop(rt);
+        for r in reports {
+            rep.merge(r);
+        }
+        drop(srv);
+    }
     rep
 }
 
@@ -1065,6 +1209,7 @@ fn main() {
     let mut rep = match engine.as_str() {
         "c18-tls" => run_c18(seed, if quick { 40 } else { 1500 }),
         "c09-tls" => run_c09(seed, if quick { 60 } else { 3000 }),
+        "c09-tls-h2" => run_c09_h2(seed, if quick { 60 } else { 3000 }),
         "c20-tls" => run_c20(seed, if quick { 60 } else { 3000 }),
         "c17-tls" => run_c17(seed, if quick { 30 } else { 800 }),
         "c16-tls" => run_c16(seed, if quick { 60 } else { 2500 }),
